@@ -582,7 +582,10 @@ static int _bisect_forward_serialno(OggVorbis_File *vf,
        starts with a raw seek */
     pcmoffset = _initial_pcmoffset(vf,&vi);
 
-    ret=_bisect_forward_serialno(vf,next,vf->offset,end,endgran,endserial,
+    /* search on from the end of this link's headers, not from wherever
+       _initial_pcmoffset stopped reading: for a link without audio
+       pages that is already inside the following link */
+    ret=_bisect_forward_serialno(vf,next,dataoffset,end,endgran,endserial,
                                  next_serialno_list,next_serialnos,m+1);
     if(ret){
       /* this link's headers are not in the tables yet */
